@@ -221,6 +221,8 @@ TRACE_LOOP = ('__CPROVER_assigns(frame, numFrames, __CPROVER_object_whole(addres
 RF_REPLACE = ['ScopedAsyncStackRoot_ctor', 'ScopedAsyncStackRoot_activateFrame', 'deactivateAsyncStackFrame',
               'ScopedAsyncStackRoot_ensureFrameDeactivated', 'ScopedAsyncStackRoot_dtor']
 
+SR_REPLACE = ['ScopedAsyncStackRoot_ctor', 'ScopedAsyncStackRoot_activateFrame', 'ScopedAsyncStackRoot_ensureFrameDeactivated', 'ScopedAsyncStackRoot_dtor']
+
 SPEC = dict(
     properties=['C20'],
     ctx=ctx,
@@ -401,6 +403,23 @@ SPEC = dict(
         dict(name='op_wrapper_start', harness='h_opw_start', enforce='op_wrapper_start', replace=RF_REPLACE),
         dict(name='sync_wait_impl_scope', harness='h_sw_scope', enforce='sync_wait_impl_scope', replace=RF_REPLACE),
         dict(name='lemma_op_wrapper_noexcept', harness='lemma_op_wrapper_noexcept', mode='lemma'),
+        # ---- call sites, second batch
+        dict(name='rec_complete', harness='h_rec_complete', enforce='rec_complete', replace=SR_REPLACE),
+        dict(name='rec_set_value', harness='h_rec_set_value', enforce='rec_set_value', replace=SR_REPLACE),
+        dict(name='rec_set_error', harness='h_rec_set_error', enforce='rec_set_error', replace=SR_REPLACE),
+        dict(name='rec_set_error_code', harness='h_rec_set_error_code', enforce='rec_set_error_code', replace=SR_REPLACE),
+        dict(name='rec_set_done', harness='h_rec_set_done', enforce='rec_set_done', replace=SR_REPLACE),
+        dict(name='rcvr_wrapper_set_next', harness='h_rcvw_set_next', enforce='rcvr_wrapper_set_next', replace=RF_REPLACE),
+        dict(name='sender_task_promise_ctor', harness='h_stp_ctor', enforce='sender_task_promise_ctor'),
+        dict(name='sender_task_awaiter_await_suspend', harness='h_stp_await_suspend', enforce='sender_task_awaiter_await_suspend',
+             replace=['deactivateAsyncStackFrame']),
+        dict(name='sender_task_unhandled_done', harness='h_stp_done', enforce='sender_task_promise_unhandled_done',
+             replace=['popAsyncStackFrameFromCaller', 'deactivateAsyncStackFrame']),
+        dict(name='sender_task_start', harness='h_st_start', enforce='sender_task_start', replace=SR_REPLACE),
+        dict(name='cleanup_final_suspend', harness='h_cp_final_suspend', enforce='cleanup_final_await_suspend_impl', replace=['popAsyncStackFrameCallee']),
+        dict(name='cleanup_await_transform', harness='h_cp_await_transform', enforce='cleanup_promise_await_transform', replace=['pushAsyncStackFrameCallerCallee']),
+        dict(name='cleanup_awaiter_await_suspend_impl', harness='h_cp_awaiter_suspend', enforce='cleanup_awaiter_await_suspend_impl_'),
+        dict(name='lemma_done_handoff', harness='lemma_done_handoff', replace=['sender_task_promise_unhandled_done']),
     ],
     assumptions=[
         'NOT REACHED: the configuration-differential half of C20 (same observable behaviour under C++17/20 x NDEBUG/debug x continuation visitation on/off): needs several builds to be run and compared, a different technique',
